@@ -200,6 +200,7 @@ def _w_bfs(job, chk):
 SPELLINGS = [
     ("h1:11211", ("h1", 11211)), ("h1", ("h1", 11211)), ("[::1]:5", ("::1", 5)), ("unix:/var/run/mc.sock", "/var/run/mc.sock"),
     ("10.0.0.3:11211", ("10.0.0.3", 11211)), ("[fd00::2]", ("fd00::2", 11211)),
+    ("Cache-A.Prod:11211", ("Cache-A.Prod", 11211)), ("MC.example.COM", ("MC.example.COM", 11211)),
 ]
 
 
@@ -208,7 +209,7 @@ def _w_hash(job, chk):
     tier = job
     keys = [k for k in corpus(300 if tier == "quick" else 1200) if isinstance(k, str) and k.isascii() and " " not in k]
     other = ("h9", 11211)
-    for text, canon in SPELLINGS:
+    for text, canon, prefix in [(t, c, p) for (t, c) in SPELLINGS for p in (b"", b"ns:")]:
         logs = []
         for spec in (text, canon):
             servers = [spec, other]
@@ -221,11 +222,15 @@ def _w_hash(job, chk):
                 else:
                     net.add_server(s)
                     addr[("unix", s)] = s
-            hc = HashClient(servers, socket_module=net.module(), default_noreply=False)
+            hc = HashClient(servers, socket_module=net.module(), default_noreply=False, key_prefix=prefix)
             where = []
             for k in keys:
                 ev0 = len(net.events)
-                hc.get(k)
+                try:
+                    hc.get(k)
+                except Exception as e:  # e.g. a spelling that no longer reaches the server
+                    where.append(f"{type(e).__name__}")
+                    continue
                 t = {net.socks[e[3]].addr for e in net.events[ev0:] if e[2] in ("connect", "sendall")}
                 where.append(addr.get(next(iter(t))) if len(t) == 1 else repr(t))
             logs.append(where)
@@ -235,7 +240,7 @@ def _w_hash(job, chk):
             chk.outcome(("spelling", repr(spec)))
             if where != ref:
                 i = next(i for i in range(len(keys)) if where[i] != ref[i])
-                chk.violation("hashclient-routing", f"HashClient({servers!r}).get({keys[i]!r}) contacted {where[i]!r}, the rule over "
+                chk.violation("hashclient-routing", f"HashClient({servers!r}, key_prefix={prefix!r}).get({keys[i]!r}) contacted {where[i]!r}, the rule over "
                               f"{names} gives {ref[i]!r}", {"part": "hash", "spec": repr(spec), "key": repr(keys[i])})
         if logs[0] != logs[1]:
             i = next(i for i in range(len(keys)) if logs[0][i] != logs[1][i])
